@@ -72,7 +72,7 @@ CLAIMED = {
          "vendor, empty continuation words: the decoder returns exactly the fold of the field semantics over the structurally computed "
          "aligned offsets), c09_chain_extends_single, c09_chain_decidable. The executable chain Spec is compared with the library on "
          "generated chains."
-         " Code level: c09_code_rtap_switch_field / _refines_spec / _header_guards / _loop_exit - every turn of the translated field switch reads the little-endian values at the field's sub-offsets and refines the Spec's per-field decoder (the iterator routines themselves, which contain goto, stay tied by the correspondence).",
+         " Code level: c09_code_rtap_switch_field / _refines_spec / _header_guards / _loop_exit - every turn of the translated field switch reads the little-endian values at the field's sub-offsets and refines the Spec's per-field decoder (the iterator routines themselves, which contain goto, stay tied by the correspondence). The iterator's two routines (goto, pointer increments: not executed) are tied per named site: c09_code_rtnext_sites_covered / c09_code_rtinit_sites_covered - all 60 + 26 conditions, assigned and returned values evaluate to the model's formulas; both switches' shapes.",
          "Rocq refinement proof by induction over the field list; differential correspondence; theorems about the C bodies translated from the source on every run (Gen/Sites.v)"),
  "C10": ("Theorems c10_layout (for ALL 2^11 selections of carried fields and all values the generator emits exactly the rendered header), "
          "c10_valid_header (version 0, length field = bytes produced, present word, every field little-endian at its naturally aligned "
@@ -100,8 +100,8 @@ CLAIMED = {
          "frame value, output objects are built from zero records; c13_no_state_between_calls (no writable library state, from the current "
          "objects). PARTIAL: independence from optimisation level / hardening flags is observed, not proved - 27000 inputs are evaluated "
          "in three builds (-O1+sanitizers, shipping -O2 flags, -O0) with different heap fill, output pre-fill, trailing bytes and preceding "
-         "call, and must agree field by field with each other and the model.",
-         "Rocq non-interference corollaries; three-build / three-environment differential comparison"),
+         "call, and must agree field by field with each other and the model. Code level: c13_code_exec_ext - a meta-theorem about the interpreter of the translated C bodies: a run that ended with only the buffer readable is the same run in EVERY memory holding the buffer (so every code-level theorem holds in any surroundings); five instantiations (tag iterator, CRC, classifier, EAPOL recognition).",
+         "Rocq non-interference corollaries; three-build / three-environment differential comparison; theorems about the C bodies translated from the source on every run (Gen/Sites.v)"),
  "C14": ("Theorems c14_tags_history, c14_generators, c14_action, c14_parse_pipeline: in allocation skeletons that perform exactly each routine's "
          "malloc/realloc/free calls (sizes and branches from the functional models), for EVERY edit history, EVERY byte string through "
          "classify + all parsers, and EVERY allocation-failure schedule, no step double-frees, uses a released or NULL block, and after the "
